@@ -315,6 +315,9 @@ func runJob(ld *sym.Loaded, j *job, tier, scratch string, verbose bool) (res *sy
 	if _, ok := j.spec.Opts["symlen"]; ok {
 		c.SymbolicLen = true
 	}
+	if j.spec.Opts["codec"] == "real" {
+		c.RealTokenCodec = true
+	}
 	if j.spec.Opts["races"] == "1" {
 		c.Races = true
 	}
